@@ -163,6 +163,17 @@ impl E1Oracle for C03Oracle {
             let _ = dijkstra::single_source(g, w, n, None, None, false, false);
         }
     }
+    fn fingerprint(&mut self, g: &G, alphabet: &Alphabet) -> u64 {
+        let mut h = 0u64;
+        for &n in &alphabet.names {
+            if let Ok(m) = dijkstra::single_source(g, self.weighted, n, None, None, false, false) {
+                for &t in &alphabet.names {
+                    fp_mix(&mut h, m.get(t).map_or(u64::MAX, |x| x.distance.to_bits()));
+                }
+            }
+        }
+        h
+    }
     fn transition(&mut self, t: &Trans, _rec: &Recorder, c: &mut Counters) {
         if let Op::AddEdge(e) = t.op {
             if *t.real_res != ResKind::Ok {
